@@ -62,6 +62,9 @@ type ChunkPlan struct {
 	Size  int    `json:"size,omitempty"`
 	Seed  uint64 `json:"seed,omitempty"`
 	Block int    `json:"block,omitempty"` // straddle: sample size
+	// EOFWithLast: the Read that hands out the final bytes of the stream returns io.EOF together with
+	// them (allowed by io.Reader; many readers do this)
+	EOFWithLast bool `json:"eof_with_last,omitempty"`
 }
 
 // FaultPlan makes the source fail at a byte offset.
@@ -271,6 +274,9 @@ func (r *Reader) readLocked(p []byte) (int, error) {
 	}
 	n := copy(p[:lim], r.data[r.pos:])
 	r.pos += int64(n)
+	if r.chunk.EOFWithLast && r.pos == int64(len(r.data)) {
+		return n, io.EOF
+	}
 	return n, nil
 }
 
